@@ -1205,17 +1205,28 @@ class Segment:
                 got.append(row)
             return got
 
+        redo = {}        # lane -> raw results of its calls made again, in the same thread,
+        #                  right after the lane's call was cancelled
+
         def concurrent():
             slots = [[private(sub) for sub in lane] for lane in lanes]
 
             def body(idx):
                 def run():
-                    for sub, slot in zip(lanes[idx], slots[idx]):
-                        self.conc_subop(sub, slot)
+                    try:
+                        for sub, slot in zip(lanes[idx], slots[idx]):
+                            self.conc_subop(sub, slot)
+                    except sched.SimInterrupt:
+                        # the caller's worker thread survives the cancellation and serves the
+                        # same requests again (thread-local leftovers would be met here)
+                        redo[idx] = [private(sub) for sub in lanes[idx]]
+                        for sub, slot in zip(lanes[idx], redo[idx]):
+                            self.conc_subop(sub, slot)
                 return run
             core = os.path.dirname(sys.modules["flamapy.core"].__file__)
             sch = sched.Scheduler(pkg, op.get("switches", []), op.get("first", 0),
-                                  transparent=[core] if not core.startswith(pkg) else [])
+                                  transparent=[core] if not core.startswith(pkg) else [],
+                                  interrupt=op.get("interrupt"))
             finished = sch.run([body(i) for i in range(len(lanes))])
             got = [[self.conc_eval(sub, slot) for sub, slot in zip(lane, row)]
                    for lane, row in zip(lanes, slots)]
@@ -1237,8 +1248,18 @@ class Segment:
                     restore.append((fname, getattr(gmod, fname)))
                     setattr(gmod, fname, getattr(simrandom, fname))
         self.disk.begin_op(None)
+        again = None
         try:
-            if op.get("order", "seq_first") == "seq_first":
+            if op.get("interrupt"):
+                # one lane's call is cancelled half-way; afterwards every call is made once more
+                seq = sequential()
+                sch, finished, conc = concurrent()
+                again = sequential()
+                for li in redo:
+                    mine = [self.conc_eval(sub, slot) for sub, slot in zip(lanes[li], redo[li])]
+                    if mine != again[li]:
+                        again[li] = mine     # what the surviving thread itself got
+            elif op.get("order", "seq_first") == "seq_first":
                 seq = sequential()
                 sch, finished, conc = concurrent()
             else:
@@ -1269,17 +1290,31 @@ class Segment:
             self.probe("conc_ops_with_interleaving")
         rec["outcome"] = "ok"
         shared = op.get("share", False)
+        cancelled = sch.interrupted[0] if sch.interrupted else None
+        if sch.interrupted:
+            self.probe("fault_fired.call_cancelled")
+            rec["cancelled_at"] = sch.interrupted[2]
+        pairs = []
         for li, lane in enumerate(lanes):
             for si, sub in enumerate(lane):
-                a, b = seq[li][si], conc[li][si]
+                if li != cancelled:
+                    pairs.append((li, si, sub, seq[li][si], conc[li][si], "interleaved"))
+                if again is not None and cancelled is not None:
+                    pairs.append((li, si, sub, seq[li][si], again[li][si],
+                                  "after lane %d was cancelled at %s" % (cancelled,
+                                                                         sch.interrupted[2])))
+        for li, si, sub, a, b, how in pairs:
+            if True:
                 if a == b:
                     continue
                 kind = sub["k"]
                 fmt = sub.get("fmt") or sub.get("name")
                 where = "; ".join("step %d lane %d->%d at %s" % tuple(x) for x in sch.log[:6])
-                detail = "lane %d call %d (%s %s): alone %s, interleaved %s [%s]" % (
-                    li, si, kind, fmt, rm.cj(a)[:160], rm.cj(b)[:160], where)
+                detail = "lane %d call %d (%s %s): alone %s, %s %s [%s]" % (
+                    li, si, kind, fmt, rm.cj(a)[:160], how, rm.cj(b)[:160], where)
                 tags = ["conc.lanes", "hist.threads"] + (["conc.shared_model"] if shared else [])
+                if how != "interleaved":
+                    tags.append("hist.after_cancelled_call")
                 if "m" in sub:
                     tags += self.model_tags(sub["m"])
                 if kind == "W":
@@ -1304,6 +1339,8 @@ class Segment:
                     props = ["C19"] + (["C17"] if fmt == "FMMetrics" else [])
                     site = fmt + ".execute"
                     check = "conc.result_differs"
+                if how != "interleaved":
+                    check = check.replace("conc.", "cancel.")
                 for prop in props:
                     self.fail(prop, check, site, detail, tags)
 
